@@ -469,7 +469,7 @@ func (cpu *CPU) nWrite16_cross(bank byte, addr uint16, value uint16) {
 	ll := byte(value)
 	hh := byte(value >> 8)
 	cpu.Bus.EaWrite(ea, ll)
-	cpu.Bus.EaWrite(ea+1, hh)
+	cpu.Bus.EaWrite((ea+1)&0x00ffffff, hh) // wrap on 24bits
 }
 
 func (cpu *CPU) nRead(bank byte, addr uint16) byte {
@@ -560,7 +560,7 @@ func (cpu *CPU) cmdRead16() uint16 {
 		m_Absolute_X_Indirect,
 		m_Stack_Relative_Indirect_Y:
 		ll := cpu.Bus.EaRead(cpu.StepInfo.EA) // todo - zastapic to jakos?
-		hh := cpu.Bus.EaRead(cpu.StepInfo.EA + 1)
+		hh := cpu.Bus.EaRead((cpu.StepInfo.EA + 1) & 0x00ffffff) // wrap on 24bits
 		return uint16(hh)<<8 | uint16(ll)
 
 	case m_Absolute,
@@ -621,7 +621,7 @@ func (cpu *CPU) cmdWrite16(value uint16) {
 		ll := byte(value)
 		hh := byte(value >> 8)
 		cpu.Bus.EaWrite(cpu.StepInfo.EA, ll)
-		cpu.Bus.EaWrite(cpu.StepInfo.EA+1, hh)
+		cpu.Bus.EaWrite((cpu.StepInfo.EA+1)&0x00ffffff, hh) // wrap on 24bits
 
 	case m_Absolute,
 		m_DP_X_Indirect,
@@ -1054,6 +1054,9 @@ func (cpu *CPU) Step() (int, bool) {
 		cpu.stepPC = 0
 		log.Println(fmt.Sprintf("unknown addressing mode PC $%02x:%04x", cpu.RK, cpu.PC))
 	}
+
+	// indexed effective addresses wrap on the 24-bit address bus
+	ea &= 0x00ffffff
 
 	// cycles adjust calculation
 	// M,X and DL here      - here
